@@ -84,6 +84,10 @@ type dvCfg struct {
 	Tomb     bool    `json:"tomb"`     // deletes may arrive as DeletedFinalStateUnknown
 	GPUMem   []int64 `json:"gpu_mem"`  // per node: GPU memory size in bytes (a property of the hardware, fixed for the run)
 	OddBytes bool    `json:"odd_bytes"` // byte-denominated GPU memory requests that are not a whole percentage of the card
+	// Fill: cards of real sizes (16Gi, 24Gi, 40Gi, 80Gi, odd byte counts - none a multiple of 100 bytes), few GPUs per node, and
+	// requests denominated in gpu-memory-ratio whose parts fill a card exactly (33/33/34, 1/99, 7/93 ...): the boundary at
+	// which the bytes recorded for a percentage must not add up to more than the card has
+	Fill bool `json:"fill,omitempty"`
 	Split    bool    `json:"split"`     // informer events may be handled between the Filter phase and Reserve of one scheduling cycle
 	// per node: GPUs per PCIe switch as the device reporter fills DeviceInfo.Topology (socket / NUMA node / PCIe / bus id)
 	// for every device of the node; 0 = the reporter fills no topology. With it the node gets a gpuTopologyScope and GPU
@@ -485,9 +489,16 @@ func (s *dvStore) apply(op *dvOp, gen bool) (evs []dvEvent, ok bool) {
 
 // ---------------------------------------------------------------- generation
 
-func dvGenInventory(g *sim.Rng, thorough bool) []dvDev {
+func dvGenInventory(g *sim.Rng, thorough, fill bool) []dvDev {
 	var out []dvDev
 	for _, t := range dvTypes {
+		if fill && t == dvGPU {
+			// few healthy cards, so that the parts of a split meet on one card
+			for i, n := 0, g.PickInt(1, 1, 2, 2, 3); i < n; i++ {
+				out = append(out, dvDev{T: t, M: i, H: true, P: 100})
+			}
+			continue
+		}
 		n := 0
 		switch g.Intn(8) {
 		case 0:
@@ -580,8 +591,25 @@ func dvMutateInventory(g *sim.Rng, cur []dvDev) []dvDev {
 	return out
 }
 
+// dvSplits: ways to hand out one card completely in whole percentages (most parts are not a whole number of bytes of a
+// card whose size is not a multiple of 100).
+var dvSplits = [][]int64{{33, 33, 34}, {1, 99}, {7, 93}, {30, 70}, {40, 60}, {10, 20, 70}, {67, 33}, {13, 87}, {3, 97}, {50, 50}, {20, 30, 50}, {11, 22, 67}, {99, 1}, {34, 66}}
+
+// dvRatioReq: one GPU, the given percentage of its memory (and, except for "ratio-only", of its cores), denominated in gpu-memory-ratio.
+func dvRatioReq(g *sim.Rng, part int64) dvReq {
+	q := dvReq{T: dvGPU, N: 1, Ratio: part, Core: part, Enc: g.Pick("koord", "core-ratio", "core-ratio", "shared", "ratio-only")}
+	if q.Enc == "ratio-only" {
+		q.Core = 0
+	}
+	return q
+}
+
 func dvGenReq(g *sim.Rng, t string, cfg *dvCfg, gpuMem int64) dvReq {
 	q := dvReq{T: t, N: 1}
+	if cfg.Fill && t == dvGPU && g.Bool(0.6) {
+		split := dvSplits[g.Intn(len(dvSplits))]
+		return dvRatioReq(g, split[g.Intn(len(split))])
+	}
 	frac := func() int64 {
 		if cfg.OddBytes && g.Bool(0.4) {
 			// what is left of a card after a byte-denominated request
@@ -659,8 +687,16 @@ func (dvEngine) Generate(p *sim.Plan, g *sim.Rng) {
 	cfg := dvCfg{Nodes: g.Range(1, 3), Scorer: g.Pick("least", "most", "none"), Serial: g.Bool(0.2),
 		OpBias: []float64{0, 0.3, 0.6}[g.Intn(3)], Coalesce: g.Bool(0.3), Tomb: g.Bool(0.3), OddBytes: g.Bool(0.15)}
 	cfg.Split = !cfg.Serial && g.Bool(0.5)
+	cfg.Fill = !cfg.OddBytes && g.Bool(0.3)
+	if cfg.Fill && g.Bool(0.6) {
+		cfg.Scorer = "most" // packs shares onto the fullest card that still fits
+	}
 	for i := 0; i < cfg.Nodes; i++ {
-		cfg.GPUMem = append(cfg.GPUMem, g.PickI64(16<<30, 80<<30, 24564<<20, 8000000000, 40<<30))
+		if cfg.Fill {
+			cfg.GPUMem = append(cfg.GPUMem, g.PickI64(16<<30, 16<<30, 24<<30, 40<<30, 80<<30, 24564<<20, 11441<<20, 12884901889, 34359738367, 8589934591, 16000000001))
+		} else {
+			cfg.GPUMem = append(cfg.GPUMem, g.PickI64(16<<30, 80<<30, 24564<<20, 8000000000, 40<<30))
+		}
 	}
 	if g.Bool(0.25) {
 		// GPU topology runs: most nodes report the topology of every device
@@ -701,7 +737,7 @@ func (dvEngine) Generate(p *sim.Plan, g *sim.Rng) {
 	inv := map[string][]dvDev{}
 	for i := 0; i < cfg.Nodes; i++ {
 		if g.Bool(0.93) {
-			inv[nodeName(i)] = dvGenInventory(g, thorough)
+			inv[nodeName(i)] = dvGenInventory(g, thorough, cfg.Fill)
 			add(dvOp{K: "dev_set", Node: nodeName(i), Devs: inv[nodeName(i)]})
 		}
 	}
@@ -787,6 +823,25 @@ func (dvEngine) Generate(p *sim.Plan, g *sim.Rng) {
 				}
 			}
 		}
+		if cfg.Fill && g.Bool(0.15) {
+			// pods whose shares add up to one card, created together and tried one after the other
+			split := dvSplits[g.Intn(len(dvSplits))]
+			pick := g.Intn(6)
+			var names []string
+			for _, part := range split {
+				name := fmt.Sprintf("p%d", np)
+				np++
+				if add(dvOp{K: "pod_create", Pod: name, Reqs: []dvReq{dvRatioReq(g, part)}}) {
+					pods = append(pods, name)
+					names = append(names, name)
+				}
+			}
+			for _, name := range names {
+				add(dvOp{K: "schedule", Pod: name, Pick: pick})
+				scheduled[name] = true
+			}
+			continue
+		}
 		switch x := g.Intn(100); {
 		case x < 22:
 			name := fmt.Sprintf("p%d", np)
@@ -820,7 +875,7 @@ func (dvEngine) Generate(p *sim.Plan, g *sim.Rng) {
 		case x < 78:
 			node := nodeName(g.Intn(cfg.Nodes))
 			if _, ok := inv[node]; !ok || g.Bool(0.1) {
-				inv[node] = dvGenInventory(g, thorough)
+				inv[node] = dvGenInventory(g, thorough, cfg.Fill)
 			} else {
 				inv[node] = dvMutateInventory(g, inv[node])
 			}
@@ -1816,28 +1871,36 @@ func (s *dvSim) checkAllocation(pod, node string, reqs []dvReq, res apiext.Devic
 	}
 }
 
-// tagSharedUndercountedCard marks the history class of a recorded finding: a GPU now shared by several
-// allocations of which at least one was requested in bytes that are not a whole percentage of the card,
-// so that its recorded gpu-memory-ratio (truncated) stands for less memory than its recorded gpu-memory.
+// tagSharedUndercountedCard marks the history class of a recorded finding: a GPU shared between a pod whose request was
+// denominated in bytes that are not a whole percentage of the card (its recorded gpu-memory-ratio is truncated and stands
+// for less memory than it holds) and at least one pod whose request was denominated in gpu-memory-ratio. The class is
+// decided from the requests and the card size - the history -, never from the amounts the allocator recorded: a card shared
+// by ratio-denominated requests only is outside it.
 func (s *dvSim) tagSharedUndercountedCard(node string, alloc dvAlloc) {
 	t := s.st.gpuMem(node)
 	for m := range alloc[dvGPU] {
-		n, under := 0, false
+		n, oddBytes, ratio := 0, false, false
 		for _, p := range s.podNames() {
 			h := s.expected(p, node)
 			if h == nil {
 				continue
 			}
-			a, ok := h.alloc[dvGPU][m]
-			if !ok {
+			if _, ok := h.alloc[dvGPU][m]; !ok {
 				continue
 			}
 			n++
-			if a[dvRatio]*t < 100*a[dvMem] {
-				under = true
+			for _, q := range s.reqsByUID[h.uid] {
+				if q.T != dvGPU {
+					continue
+				}
+				if q.Mem == 0 {
+					ratio = true
+				} else if q.Ratio == 0 && ((q.Mem*100)%t != 0 || int64(float64(q.Mem)/float64(t)*100)*t < 100*q.Mem) {
+					oddBytes = true
+				}
 			}
 		}
-		if n >= 2 && under {
+		if n >= 2 && oddBytes && ratio {
 			s.tag("card-shared-with-truncated-byte-request")
 		}
 	}
